@@ -219,6 +219,16 @@ func (o *Operator) HandleDeploy(ctx context.Context, req *workerpb.DeployOperato
 	o.sourceRunners = newUpstreams(req.SourceRunnerIds)
 	o.sink = sink
 
+	// A redeploy starts over from the given checkpoints. Work of the previous
+	// deployment that hasn't been completed must not carry over: a barrier
+	// alignment that was in progress can never complete (it would park the new
+	// source runners and reject their barriers) and events that are still batched
+	// will be sent again by the redeployed source runners.
+	o.checkpoint = nil
+	if o.eventBatcher != nil {
+		o.eventBatcher.Flush(batching.CurrentBatch)
+	}
+
 	if err := o.status.DidLoad(); err != nil {
 		return fmt.Errorf("invalid status transition: %w", err)
 	}
